@@ -10,12 +10,12 @@ git checkout -q -- . || exit 2
 git apply --check seed/patch.diff || { echo "VERIFY: patch does not apply"; exit 1; }
 git apply seed/patch.diff
 echo "--- files changed: $(git diff --stat | tail -1)"
-python3 /verif/tools/baseline_check.py "$WT" > /tmp/verify_base.txt; base=$?; tail -3 /tmp/verify_base.txt
+python3 /verif/tools/baseline_check.py "$WT" > "$WT/.verify_base.txt"; base=$?; tail -3 "$WT/.verify_base.txt"
 cargo build -q -p duckscript_cli --offline 2>&1 | tail -3
-bash -c "$DEMO" >/tmp/verify_demo_with.txt 2>&1; with=$?
+bash -c "$DEMO" >"$WT/.verify_demo_with.txt" 2>&1; with=$?
 git checkout -q -- .
 cargo build -q -p duckscript_cli --offline 2>&1 | tail -3
-bash -c "$DEMO" >/tmp/verify_demo_without.txt 2>&1; without=$?
+bash -c "$DEMO" >"$WT/.verify_demo_without.txt" 2>&1; without=$?
 echo "VERIFY: baseline_exit=$base demo_with_patch_exit=$with demo_without_patch_exit=$without"
-tail -2 /tmp/verify_demo_with.txt | cut -c1-200
+tail -2 "$WT/.verify_demo_with.txt" | cut -c1-200
 if [ $base -eq 0 ] && [ $with -ne 0 ] && [ $without -eq 0 ]; then echo "VERIFY: CONFIRMED"; else echo "VERIFY: NOT CONFIRMED"; fi
